@@ -422,6 +422,9 @@ class AshProtocol(asyncio.Protocol):
             else:
                 out.append(c)
 
+        if escaped:
+            raise ParsingError("Frame ends with an escape byte")
+
         return out
 
     def data_received(self, data: bytes) -> None:
